@@ -536,12 +536,61 @@ def catalog(thorough):
         for l in ls:
             add(Flex(it, l))
     add(Flex(U64, U8)); add(Flex(V88, U32)); add(Flex(U16, LE16)); add(Flex(Vec(U16, U16), U16))
+    # an item type with a destructor
+    pd = Leaf("PDrop", spec="sstruct_with_drop(u8,u16)")
+    add(pd); add(Flex(pd, U8)); add(Vec(pd, U8)); add(Flex(pd, U16))
+    # zero-sized items: the payload of every item is empty
+    add(Flex(UNIT, U8)); add(Flex(Arr(U32, 0), U16)); add(Flex(get(SStruct, []), LE16))
     global IO_SHAPES
-    IO_SHAPES = [W_msg, W_pad, U_u32_v88, Vec(U8, U32), Str(U16), Flex(V88, U8), Flex(Vec(U16, U16), U16), P_u8u32, Q_small, PU, Flex(U32, U8), W_repo]
+    W_con = get(UEnum, "u16", [("unit", []), ("tuple", [K3, V_b8]), ("tuple", [Q_small])], 0)
+    IO_SHAPES = [Vec(BOOL, U8), Vec(U8, U64), W_con, W_msg, W_pad, U_u32_v88, Vec(U8, U32), Str(U16), Flex(V88, U8), Flex(Vec(U16, U16), U16), P_u8u32, Q_small, PU, Flex(U32, U8), W_repo]
     return top
 
 IO_SHAPES = []
 GENERIC_SRC = r'''
+// ---- an item type with a destructor that writes to its own bytes (FlexVec::truncate runs destructors in place)
+#[flat(default = true)]
+#[derive(Clone, PartialEq, PartialOrd)]
+pub struct PDrop { pub f0: u8, pub f1: u16 }
+impl Drop for PDrop {
+    fn drop(&mut self) {
+        self.f0 = 0xDD;
+        self.f1 = 0xDDDD;
+    }
+}
+impl Node for PDrop {
+    fn desc() -> Desc { Desc::Struct { fields: vec![<u8 as Node>::desc(), <u16 as Node>::desc()], sized: true } }
+    fn read(&self) -> Value { Value::Struct(vec![self.f0.read(), self.f1.read()]) }
+    unsafe fn emplace_value_unchecked<'a>(bytes: &'a mut [u8], v: &Value, _k: Kind) -> Result<&'a mut Self, Error> {
+        <Self as SizedNode>::from_value(v).emplace_unchecked(bytes)
+    }
+    fn walk(&self, w: &mut Walk) {
+        w.obj(self, "sstruct");
+        self.f0.walk(w);
+        self.f1.walk(w);
+    }
+    fn apply(&mut self, path: &[usize], op: &Op) -> OpOut {
+        match path.split_first() {
+            None => match op {
+                // plain assignment would run the destructor on the old value in place, which is what a user gets too
+                Op::Set(v) => { *self = <Self as SizedNode>::from_value(v); OpOut::Done }
+                _ => sized_self_op(self, path, op),
+            },
+            Some((0, r)) => self.f0.apply(r, op),
+            Some((1, r)) => self.f1.apply(r, op),
+            _ => OpOut::BadPath,
+        }
+    }
+    fn field_probes(&self) -> Vec<FieldProbe> { vec![probe(&self.f0), probe(&self.f1)] }
+    harness::impl_sized_info!();
+    fn declared_portable() -> bool { false }
+    fn try_default(bytes: &mut [u8]) -> Option<Result<&mut Self, Error>> { Some(Self::default_in_place(bytes)) }
+    harness::impl_flex_push_default!();
+}
+impl SizedNode for PDrop {
+    fn from_value(v: &Value) -> Self { let f = fields(v); PDrop { f0: <u8 as SizedNode>::from_value(&f[0]), f1: <u16 as SizedNode>::from_value(&f[1]) } }
+}
+
 // ---- generic definitions (modelled on the repo's tests/src/generics.rs), hand-written glue
 #[flat(sized = false, default = true)]
 pub struct GU<T: Flat + Default + Clone, const N: usize>
